@@ -9,10 +9,10 @@ ID = 'C20'
 LEAN_MODULE = 'PncProofs.C20'
 LEAN_FILE = 'PncProofs/C20.lean'
 NAMESPACE = 'Props.C20'
-LEAN_CONE = ['PncModel.Arl', 'PncProofs.ArlLemmas', 'PncProofs.C20']
+LEAN_CONE = ['PncModel.Generated.ArlHeaders', 'PncModel.Arl', 'PncProofs.ArlLemmas', 'PncProofs.C20']
 LEMMA_FILES = ['PncProofs/ArlLemmas.lean']
 REQUIRED_THEOREMS = ['bound_partial', 'unpack_inverts', 'roundtrip_partial', 'first_exact', 'checksum',
-                     'counterexample_trunc', 'counterexample_wrap', 'layout_disjoint', 'layout_size']
+                     'counterexample_trunc', 'counterexample_wrap', 'layout_disjoint', 'layout_size', 'label_matches_source']
 RULE = ('(a) dyadic float32 fields (all float32 operations of pack2d/unpack exact), shapes 1..5 x 2..6, '
         'unit 2^j with j in -90..90; classes: random walk, constant, max difference exactly 2^k, just '
         'below 2^k, differences near -128 steps (negative-truncation region), runs of falling steps of exactly one power of two, large offsets; '
